@@ -176,7 +176,8 @@ func c16Streams(t *testing.T, st *Stats) {
 	from := 0
 	for from < len(reqs) {
 		cmd := exec.Command(os.Args[0], "-test.run", "^TestC16StreamChild$", "-test.timeout", "600s")
-		cmd.Env = append(os.Environ(), "C16_STREAM_CHILD=1", fmt.Sprintf("C16_STREAM_FROM=%d", from), "VERIF_STATS=")
+		// (the child's temporary directories live under the parent's: removed even when the child dies)
+		cmd.Env = append(os.Environ(), "C16_STREAM_CHILD=1", fmt.Sprintf("C16_STREAM_FROM=%d", from), "VERIF_STATS=", "TMPDIR="+t.TempDir())
 		var out, errb bytes.Buffer
 		cmd.Stdout, cmd.Stderr = &out, &errb
 		runErr := cmd.Run()
